@@ -60,47 +60,7 @@ def run(ctx):
     a = get_arg(c, None, 'array')
     ctx.decide(a is not None and norm(a) == 'self', 'R-FLOW', 'D1', f, c, 'copy-source', 'the source handed to asarray is self', detail='source differs')
     _fresh_metadata(ctx, f, c, 'D4')
-    # dtype reaches every producer of the chunk generator (Array branch included)
-    ys = [n for n in own_nodes(gen.node) if isinstance(n, ast.Yield)]
-    src = gen.params[0]
-    # dispatch branches are selected by path-condition evaluation, not by the layout of the if/elif chain
-    ARR = {f"hasattr({src}, '__next__')": False, f'isinstance({src}, Array)': True}
-    SEQ = {f"hasattr({src}, '__next__')": False, f'isinstance({src}, Array)': False,
-           f"hasattr({src}, '__len__')": True, f"hasattr({src}, 'keys')": False}
-    g_ = cfg_of(gen)
-    may_arr = reach_under(gen, _trunc.folder(ARR, gen))
-    arr_branch = [y for y in ys if g_.node_for(y) in may_arr]
-    ctx.floor('C15 producers on the Array branch', len(arr_branch), 2)
-    for y in arr_branch:
-        v = y.value
-        ok = isinstance(v, ast.Call) and dotted(v.func) in ('np.asarray', 'np.array') and \
-            norm(get_arg(v, 1, 'dtype') or ast.Constant('<absent>')) == 'dtype'
-        ctx.decide(ok, 'R-SIB', 'D1', gen, y, f'array-branch-producer::{norm(v)[:30]}',
-                   'the Array branch of the chunk generator converts with the requested dtype',
-                   detail='copy(dtype=X) silently keeps the source dtype')
-    # D3: a source of length 0 reaches a producer and never the frame machinery, on both branches
-    def empty_ok(base, frame_call_pred):
-        env = dict(base)
-        for k in (f'len({src})', f'{src}.shape[0]'):
-            env[k] = 0
-        ft = _trunc.folder(env, gen)
-        may = reach_under(gen, ft)
-        frames = [n for n in own_nodes(gen.node) if isinstance(n, ast.Call) and frame_call_pred(n)]
-        return any(g_.node_for(y) in may for y in ys) and not any(g_.node_for(n) in may for n in frames) and bool(frames)
-    handled = empty_ok(ARR, lambda n: isinstance(n.func, ast.Attribute) and n.func.attr in ('iterchunks', 'iterindices'))
-    ctx.decide(handled, 'R-BELIEF', 'D3', gen, None, 'empty-array-source',
-               'the Array branch of the chunk generator handles a source of length 0 (its sequence sibling does, and '
-               'iterchunks rejects startindex >= endindex)',
-               detail='copying an Array whose first axis has length 0 raises ValueError')
-    ff_ = ctx.repo.func('utils.fit_frames')
-
-    def _frame_machinery(n):
-        if dotted(n.func) in ('fit_frames', 'utils.fit_frames'):
-            return True
-        # a frame generator of the package that itself obtains its counts from fit_frames
-        return any(k == 'repo' and any(c2 is ff_ for _, c2 in ctx.E.callees(t)) for k, t in ctx.R.resolve_call(n, gen))
-    seq_empty = empty_ok(SEQ, _frame_machinery)
-    ctx.decide(seq_empty, 'R-BELIEF', 'D3', gen, None, 'empty-sequence-source', 'the sequence branch handles length 0', detail='missing')
+    chunk_generator_rules(ctx, 'D1', 'D3')
     # D2
     g = RA.methods['copy']
     calls = [n for n, cal in ctx.E.callees(g) if cal is asragged and isinstance(n, ast.Call)]
@@ -158,6 +118,53 @@ def run(ctx):
         ok = len(calls) == 1 and all(norm(get_arg(calls[0], None, k) or ast.Constant(0)) == k for k in ('filepath', 'compressiontype', 'overwrite'))
         ctx.decide(ok, 'R-FLOW', 'D5', m or dd, calls[0] if calls else None, f'archive-forward::{cls.name}',
                    f'{cls.name}.archive forwards filepath, compressiontype and overwrite to DataDir.archive', detail='arguments not forwarded')
+
+
+def chunk_generator_rules(ctx, cl_dtype, cl_empty):
+    """Clauses about `_archunkgenerator` shared with C01: the Array branch converts with the requested dtype, and a source of
+    length 0 reaches a producer and never the frame machinery, on both the Array and the sequence branch."""
+    gen = ctx.repo.func('array._archunkgenerator')
+    # dtype reaches every producer of the chunk generator (Array branch included)
+    ys = [n for n in own_nodes(gen.node) if isinstance(n, ast.Yield)]
+    src = gen.params[0]
+    # dispatch branches are selected by path-condition evaluation, not by the layout of the if/elif chain
+    ARR = {f"hasattr({src}, '__next__')": False, f'isinstance({src}, Array)': True}
+    SEQ = {f"hasattr({src}, '__next__')": False, f'isinstance({src}, Array)': False,
+           f"hasattr({src}, '__len__')": True, f"hasattr({src}, 'keys')": False}
+    g_ = cfg_of(gen)
+    may_arr = reach_under(gen, _trunc.folder(ARR, gen))
+    arr_branch = [y for y in ys if g_.node_for(y) in may_arr]
+    ctx.floor('C15 producers on the Array branch', len(arr_branch), 2)
+    for y in arr_branch:
+        v = y.value
+        ok = isinstance(v, ast.Call) and dotted(v.func) in ('np.asarray', 'np.array') and \
+            norm(get_arg(v, 1, 'dtype') or ast.Constant('<absent>')) == 'dtype'
+        ctx.decide(ok, 'R-SIB', cl_dtype, gen, y, f'array-branch-producer::{norm(v)[:30]}',
+                   'the Array branch of the chunk generator converts with the requested dtype',
+                   detail='copy(dtype=X) silently keeps the source dtype')
+    # D3: a source of length 0 reaches a producer and never the frame machinery, on both branches
+    def empty_ok(base, frame_call_pred):
+        env = dict(base)
+        for k in (f'len({src})', f'{src}.shape[0]'):
+            env[k] = 0
+        ft = _trunc.folder(env, gen)
+        may = reach_under(gen, ft)
+        frames = [n for n in own_nodes(gen.node) if isinstance(n, ast.Call) and frame_call_pred(n)]
+        return any(g_.node_for(y) in may for y in ys) and not any(g_.node_for(n) in may for n in frames) and bool(frames)
+    handled = empty_ok(ARR, lambda n: isinstance(n.func, ast.Attribute) and n.func.attr in ('iterchunks', 'iterindices'))
+    ctx.decide(handled, 'R-BELIEF', cl_empty, gen, None, 'empty-array-source',
+               'the Array branch of the chunk generator handles a source of length 0 (its sequence sibling does, and '
+               'iterchunks rejects startindex >= endindex)',
+               detail='copying an Array whose first axis has length 0 raises ValueError')
+    ff_ = ctx.repo.func('utils.fit_frames')
+
+    def _frame_machinery(n):
+        if dotted(n.func) in ('fit_frames', 'utils.fit_frames'):
+            return True
+        # a frame generator of the package that itself obtains its counts from fit_frames
+        return any(k == 'repo' and any(c2 is ff_ for _, c2 in ctx.E.callees(t)) for k, t in ctx.R.resolve_call(n, gen))
+    seq_empty = empty_ok(SEQ, _frame_machinery)
+    ctx.decide(seq_empty, 'R-BELIEF', cl_empty, gen, None, 'empty-sequence-source', 'the sequence branch handles length 0', detail='missing')
 
 
 def _ragged_copy_by_delegation(ctx, RA, g, asragged, c):
